@@ -2522,7 +2522,18 @@ class Engine:
             if tt["k"] == "param" and fr.binding and tt["name"] in fr.binding:
                 st_ti = fr.binding[tt["name"]]
             binding["Self"] = st_ti
-        # generic params by position are not tracked; `T` of Worker<T> stays unknown
+        # type parameters of the callee := the call's type arguments (a caller's own parameter is looked up in the caller's
+        # binding), so that `D::launch(..)` inside `fn start<D: Direction>` resolves to the impl of the type the caller chose
+        gargs = fn.get("gargs") or []
+        gnames = getattr(callee, "generics", [])
+        if gnames and len(gnames) == len(gargs) and fn.get("def") == callee.path:      # (type arguments are those of `def`, not of a resolved impl)
+            for nm, ga in zip(gnames, gargs):
+                tt = prog.types[ga]
+                if tt["k"] == "param":
+                    if fr.binding and tt["name"] in fr.binding:
+                        binding.setdefault(nm, fr.binding[tt["name"]])
+                else:
+                    binding.setdefault(nm, ga)
         nf = self.new_frame(fr, callee, site, binding, fr.region)
         for i, (sub, ti) in enumerate(args):
             self.write_subtree(st, ("L", nf.id, i + 1), (), sub, (nf.id, 0))
